@@ -2,6 +2,9 @@ import GrinVerif.Lemmas.PowRoom
 import GrinVerif.Lemmas.PowUSound
 import GrinVerif.Lemmas.PowRoodCycle
 import GrinVerif.Lemmas.PowRoomComplete
+import GrinVerif.Lemmas.PowTotal
+import GrinVerif.Lemmas.PowUXor
+import GrinVerif.Lemmas.PowRoodComplete
 /-! # C05 — PoW verification accepts exactly the simple cycles of the header-seeded graph
 
 All theorems are about the verifier models of `Model/Pow.lean` (transliterations of the five Rust
@@ -158,6 +161,119 @@ theorem verifyCuckatoo_sound (P : Params) (ep : Nat → Nat × Nat) (ns : List N
     have hn' : uvF ep ns a >>> 1 = uvF ep ns b >>> 1 := hn
     simp only [keyF, cfgCuckatoo, hs, hn', beq_self_eq_true, and_self]
 
+/-- **Completeness of the Cuckaroo verifier**: every simple cycle through all edges of the
+bipartite graph, presented as `proofsize > 0` strictly ascending in-range nonces, is accepted. -/
+theorem verifyCuckaroo_complete (P : Params) (ep : Nat → Nat × Nat) (ns : List Nat)
+    (hps : 0 < P.proofsize) (hlen : ns.length = P.proofsize) (hasc : Ascending ns)
+    (hmask : ∀ x ∈ ns, x ≤ P.edgeMask) (hc : IsProofCycleCuckaroo (ns.map ep)) :
+    verifyCuckaroo P ep ns = .ok () := by
+  obtain ⟨c, hc⟩ := hc
+  rw [List.length_map] at hc
+  apply verifyU_complete_bip cfgCuckaroo mtEquiv_cuckaroo P ep ns hps hlen hasc hmask rfl rfl
+    (δ := 0) (c := c)
+  · intro a b h; simp only [keyF, cfgCuckaroo] at h; omega
+  · intro a b hp
+    have := hp.2.1
+    simp only [cfgCuckaroo, beq_iff_eq] at this
+    rw [this, Nat.xor_zero]
+  · simp [cfgCuckaroo]
+  · refine hc.mono ?_ ?_
+    · intro a b ⟨hs, hn⟩
+      unfold sameSide at hs
+      have hn' : uvF ep ns a = uvF ep ns b := hn
+      refine ⟨by simp only [keyF, cfgCuckaroo, hs, hn'], by simp [cfgCuckaroo, hn'], by simp [cfgCuckaroo]⟩
+    · intro a b ⟨hk, hm⟩
+      simp only [keyF, cfgCuckaroo] at hk
+      simp only [cfgCuckaroo, beq_iff_eq] at hm
+      exact ⟨by unfold sameSide; omega, hm⟩
+
+/-- **Cuckaroo: verification accepts exactly the simple cycles.** -/
+theorem verifyCuckaroo_iff (P : Params) (ep : Nat → Nat × Nat) (ns : List Nat) (hps : 0 < P.proofsize) :
+    verifyCuckaroo P ep ns = .ok () ↔
+      (ns.length = P.proofsize ∧ Ascending ns ∧ (∀ x ∈ ns, x ≤ P.edgeMask) ∧
+        IsProofCycleCuckaroo (ns.map ep)) :=
+  ⟨verifyCuckaroo_sound P ep ns,
+   fun ⟨h1, h2, h3, h4⟩ => verifyCuckaroo_complete P ep ns hps h1 h2 h3 h4⟩
+
+/-- **Completeness of the Cuckarooz verifier** (context proof size = global proof size). -/
+theorem verifyCuckarooz_complete (P : Params) (ep : Nat → Nat × Nat) (ns : List Nat)
+    (hps : 0 < P.proofsize) (hctx : P.ctxProofSize = P.proofsize) (hlen : ns.length = P.proofsize)
+    (hasc : Ascending ns) (hmask : ∀ x ∈ ns, x ≤ P.edgeMask)
+    (hc : IsProofCycleCuckarooz (ns.map ep)) :
+    verifyCuckarooz P ep ns = .ok () := by
+  obtain ⟨c, hc⟩ := hc
+  rw [List.length_map] at hc
+  apply verifyU_complete_joint cfgCuckarooz mtEquiv_cuckarooz P ep ns hps hlen hasc hmask rfl
+    (fun _ => hctx) (c := c)
+  · intro a b hp
+    have := hp.2.1
+    simp only [cfgCuckarooz, beq_iff_eq] at this
+    exact this
+  · simp [cfgCuckarooz]
+  · refine hc.mono ?_ ?_
+    · intro a b hn
+      have hn' : uvF ep ns a = uvF ep ns b := hn
+      refine ⟨by simp only [keyF, cfgCuckarooz, hn'], by simp [cfgCuckarooz, hn'], by simp [cfgCuckarooz]⟩
+    · intro a b ⟨_, hm⟩
+      simp only [cfgCuckarooz, beq_iff_eq] at hm
+      exact hm
+
+/-- **Cuckarooz: verification accepts exactly the simple cycles.** -/
+theorem verifyCuckarooz_iff (P : Params) (ep : Nat → Nat × Nat) (ns : List Nat)
+    (hps : 0 < P.proofsize) (hctx : P.ctxProofSize = P.proofsize) :
+    verifyCuckarooz P ep ns = .ok () ↔
+      (ns.length = P.proofsize ∧ Ascending ns ∧ (∀ x ∈ ns, x ≤ P.edgeMask) ∧
+        IsProofCycleCuckarooz (ns.map ep)) :=
+  ⟨verifyCuckarooz_sound P ep ns hctx,
+   fun ⟨h1, h2, h3, h4⟩ => verifyCuckarooz_complete P ep ns hps hctx h1 h2 h3 h4⟩
+
+/-- **Completeness of the Cuckatoo verifier.** -/
+theorem verifyCuckatoo_complete (P : Params) (ep : Nat → Nat × Nat) (ns : List Nat)
+    (hps : 0 < P.proofsize) (hlen : ns.length = P.proofsize) (hasc : Ascending ns)
+    (hmask : ∀ x ∈ ns, x ≤ P.edgeMask) (hc : IsProofCycleCuckatoo (ns.map ep)) :
+    verifyCuckatoo P ep ns = .ok () := by
+  obtain ⟨c, hc⟩ := hc
+  rw [List.length_map] at hc
+  apply verifyU_complete_bip cfgCuckatoo mtEquiv_cuckatoo P ep ns hps hlen hasc hmask rfl rfl
+    (δ := 1) (c := c)
+  · intro a b h; simp only [keyF, cfgCuckatoo] at h; omega
+  · intro a b hp
+    have hm := hp.2.1
+    have hd := hp.2.2.2 rfl
+    simp only [cfgCuckatoo, beq_iff_eq, shr_one] at hm
+    rcases eq_or_xor_of_half _ _ hm with e | e
+    · exact absurd e hd
+    · exact e
+  · simp only [cfgCuckatoo]
+    by_cases h : ns.length / 2 % 2 = 1
+    · simp [h]
+    · have : ns.length / 2 % 2 = 0 := by omega
+      simp [this]
+  · refine hc.mono ?_ ?_
+    · intro a b ⟨hs, hn⟩
+      unfold sameSide at hs
+      have hn' : uvF ep ns a = uvF ep ns b ^^^ 1 := hn
+      have hhalf : uvF ep ns b / 2 = uvF ep ns a / 2 := by
+        rw [hn']; simp [Nat.xor_div_two]
+      refine ⟨?_, ?_, ?_⟩
+      · simp only [keyF, cfgCuckatoo, hs, shr_one, hhalf]
+      · simp only [cfgCuckatoo, shr_one, hhalf, beq_self_eq_true]
+      · intro _ e
+        rw [hn'] at e
+        exact ne_xor_one _ e
+    · intro a b ⟨hk, hm⟩
+      simp only [keyF, cfgCuckatoo] at hk
+      simp only [cfgCuckatoo, beq_iff_eq] at hm
+      exact ⟨by unfold sameSide; omega, hm⟩
+
+/-- **Cuckatoo: verification accepts exactly the simple cycles.** -/
+theorem verifyCuckatoo_iff (P : Params) (ep : Nat → Nat × Nat) (ns : List Nat) (hps : 0 < P.proofsize) :
+    verifyCuckatoo P ep ns = .ok () ↔
+      (ns.length = P.proofsize ∧ Ascending ns ∧ (∀ x ∈ ns, x ≤ P.edgeMask) ∧
+        IsProofCycleCuckatoo (ns.map ep)) :=
+  ⟨verifyCuckatoo_sound P ep ns,
+   fun ⟨h1, h2, h3, h4⟩ => verifyCuckatoo_complete P ep ns hps h1 h2 h3 h4⟩
+
 /-- non-vacuity: a 4-cycle `u0 -e0- v0 -e1- u1 -e2- v1 -e3- u0` is accepted by Cuckaroo … -/
 example : verifyCuckaroo ⟨4, 7, 4, fun x => x % 8⟩
     (fun n => match n with | 0 => (5, 9) | 2 => (6, 9) | 5 => (6, 3) | 7 => (5, 3) | _ => (0, 0))
@@ -243,5 +359,68 @@ example : verifyCuckarood ⟨8, 15, 8, fun x => x % 16⟩
       | 1 => (1, 2) | 3 => (2, 3) | 5 => (3, 4) | 7 => (3, 4)
       | _ => (0, 0))
     [0, 1, 2, 3, 4, 5, 6, 7] = .error .noClose := by decide +kernel
+
+/-! ## Termination
+
+The Rust loops `loop { … }` have no syntactic bound; the models give them fuel
+(`size + 1` resp. `2·size + 1` iterations) and return the distinct outcome `Err.hang` when it runs
+out. These theorems say it never does: the fuel bounds are real bounds, every `verify`
+terminates on every input. (For Cuckarood this is true only since the repair df0049399 — the
+unbounded walk was found by this model running out of fuel and confirmed on the real code; for
+the circular-list variants it holds because "partner" is an involution, so the step map is
+injective and the orbit of slot 0 must close — `uWalk_no_hang`, a pigeonhole argument.) -/
+
+theorem verifyCuckaroom_terminates (P : Params) (ep : Nat → Nat × Nat) (ns : List Nat) :
+    verifyCuckaroom P ep ns ≠ .error .hang := verifyCuckaroom_no_hang P ep ns
+
+theorem verifyCuckarood_terminates (P : Params) (ep : Nat → Nat × Nat) (ns : List Nat) :
+    verifyCuckarood P ep ns ≠ .error .hang := verifyCuckarood_no_hang P ep ns
+
+theorem verifyCuckaroo_terminates (P : Params) (ep : Nat → Nat × Nat) (ns : List Nat)
+    (hps : 0 < P.proofsize) : verifyCuckaroo P ep ns ≠ .error .hang :=
+  verifyU_no_hang cfgCuckaroo mtEquiv_cuckaroo P ep ns hps
+
+theorem verifyCuckarooz_terminates (P : Params) (ep : Nat → Nat × Nat) (ns : List Nat)
+    (hps : 0 < P.proofsize) : verifyCuckarooz P ep ns ≠ .error .hang :=
+  verifyU_no_hang cfgCuckarooz mtEquiv_cuckarooz P ep ns hps
+
+theorem verifyCuckatoo_terminates (P : Params) (ep : Nat → Nat × Nat) (ns : List Nat)
+    (hps : 0 < P.proofsize) : verifyCuckatoo P ep ns ≠ .error .hang :=
+  verifyU_no_hang cfgCuckatoo mtEquiv_cuckatoo P ep ns hps
+
+/-! ## Cuckarood, converse direction -/
+
+/-- **Completeness of the Cuckarood verifier**: every direction-alternating simple cycle through
+all edges with as many even as odd nonces, presented as `proofsize > 0` strictly ascending in-range
+nonces, is accepted (for a bucket hash that keeps the lowest bit, as `& mask` does). -/
+theorem verifyCuckarood_complete (P : Params) (ep : Nat → Nat × Nat) (ns : List Nat)
+    (hbk : ∀ x, P.bk x % 2 = x % 2) (hps : 0 < P.proofsize) (hlen : ns.length = P.proofsize)
+    (hasc : Ascending ns) (hmask : ∀ x ∈ ns, x ≤ P.edgeMask)
+    (hc : IsProofCycleCuckarood (ns.map (fun x => (x % 2, ep x)))) :
+    verifyCuckarood P ep ns = .ok () :=
+  rood_complete P ep ns hbk hps hlen hasc hmask hc
+
+/-- **Cuckarood: verification accepts exactly the direction-alternating simple cycles.** -/
+theorem verifyCuckarood_iff (P : Params) (ep : Nat → Nat × Nat) (ns : List Nat)
+    (hbk : ∀ x, P.bk x % 2 = x % 2) (hps : 0 < P.proofsize) :
+    verifyCuckarood P ep ns = .ok () ↔
+      (ns.length = P.proofsize ∧ Ascending ns ∧ (∀ x ∈ ns, x ≤ P.edgeMask) ∧
+        IsProofCycleCuckarood (ns.map (fun x => (x % 2, ep x)))) :=
+  ⟨verifyCuckarood_sound P ep ns hbk,
+   fun ⟨h1, h2, h3, h4⟩ => verifyCuckarood_complete P ep ns hbk hps h1 h2 h3 h4⟩
+
+/-! ## What is not proved (kept visible)
+
+* The executable oracle `oracleCycle` (Model/PowSpec.lean: degree counting + connectivity closure,
+  used by the driver on every line) is not proved equivalent to the declarative `IsProofCycle*`;
+  it is tied to it only through the verifiers: on every line of every run the implementation, the
+  proven-equivalent verifier model and the oracle agree. So `IsProofCycle*` is decidable *via the
+  verifier* (`verify*_iff` gives a decision procedure), not via the oracle.
+* `Proof` packing (`pack_bits` / `read_number`, padding check) and the difficulty function are
+  modelled bit for bit (Model/PowPack.lean) and compared on every edge_bits 1..63, but the
+  round-trip `readNumber (packNonces w ns) (i*w) w = ns[i]` is not a theorem here (DESIGN A.4 puts
+  it under C10).
+* siphash / blake2b are executable models compared by value; nothing is proved about them (the
+  graph theorems hold for every endpoint function). -/
 
 end GV.Props.C05
